@@ -116,6 +116,24 @@ CODE_DOCS = [
 ]
 
 
+# one embedded statement per document: in markup the statement ends at the first line break outside its delimiters
+EMBED_DOCS = [
+    '#for x in data.entries.filter(it => it.ok).rev() [a]\n', '#for x in aaaaaaaaaa.bbbbbbbbbbbb.cccccccccc(dddddddd).eeeeeeeee() [a]\n', '#while aaaaaaaa.bbbbbbb.ccccccc(d).eeeee() { x }\n',
+    '#if aaaaaaaa.bbbbbbb.ccccccc(d).eeeee() [a] else [b]\n', '#if aaaaaaaaaaaaa and bbbbbbbbbbbbbbb and cccccccccccc [a]\n', '#let v = aaaaaaaa.bbbbbbb.ccccccc(d).eeeee()\n',
+    '#let v = aaaaaaaaaaaaa + bbbbbbbbbbbbbbb + cccccccccccc\n', '#show aaaaaaaa.where(b: c): it => it.body.children.map(f).join()\n', '#set text(fill: aaaaaaaa.bbbbbbb.ccccccc(d).eeeee())\n',
+    '#aaaaaaaa.bbbbbbb.ccccccc(d).eeeee()\n', '#for x in data.map(it => {\n  let y = it\n  y\n}).rev() [a]\n', '#context aaaaaaaa.bbbbbbb.ccccccc(d).eeeee()\n',
+    '#import "a.typ": aaaaaaaaaa, bbbbbbbbbbbb, cccccccccc\n', '#include "aaaaaaaaaaaaaaaa" + bbbbbbbbbbbbbbbb\n', '#return aaaaaaaa + bbbbbbbb\n', '#for (k, v) in aaaaaaaa.bbbbbbb.pairs() { k }\n',
+    '#link("u");[1]\n', '#v(1em);(optional)\n', '#f[a];.b\n', '#{a};[x]\n', '#f(x); text\n', '#x;y\n', '#x.y;.z\n',
+]
+
+
+def markup_semicolons(tree, parent=None):
+    kind, x = tree
+    if not isinstance(x, list):
+        return 1 if kind == 'Semicolon' and parent == 'Markup' else 0
+    return sum(markup_semicolons(c, kind) for c in x)
+
+
 def code_adjacency(tree):
     """[(index of the leaf that ends embedded code, separated-by-blank?, text of the next non-blank leaf)] for embedded identifiers `#x` / `#x.y`"""
     from .conserve import leaf_list
@@ -197,6 +215,8 @@ def explore(S, docs=None, want=('C01', 'C04', 'C05')):
         pairs = word_pairs(tree) if 'C08' in want else []
         prot = protected_texts(tree) if 'C07' in want else []
         adj = code_adjacency(tree) if 'C01' in want else []
+        msemis = markup_semicolons(tree) if 'C01' in want else 0
+        embedded = src in EMBED_DOCS
         from .conserve import leaf_list as _ll
         markers = {t_ for k_, t_ in _ll(tree) if k_ in ('ListMarker', 'EnumMarker', 'TermMarker')} if 'C01' in want and not src.startswith('$') else set()
 
@@ -290,6 +310,26 @@ def explore(S, docs=None, want=('C01', 'C04', 'C05')):
                             ctx.must_hold(sep > 0, 'C01:embedded-identifier-runs-into-following-token',
                                           lambda mdl, mode=mode, text=text: dict(describe(mdl), layout=mode, output=text, code=name, next=ntext))
                         ctx.witness('embedded code adjacency')
+                if 'C01' in want and msemis:
+                    # a semicolon in markup ends embedded code (`#f(x);[y]` is not `#f(x)[y]`): it stays
+                    semis = sum(a[1].concrete().count(';') for a in at if a[0] == 't' and a[1].is_concrete())
+                    ctx.must_hold(semis >= msemis, 'C01:semicolon-that-ends-embedded-code-dropped', info)
+                if 'C04' in want and embedded:
+                    # embedded code in markup: a line break outside every delimiter ends the statement, so none may appear before its last token
+                    depth = 0
+                    bad = False
+                    last_tok = max((j for j, a in enumerate(at) if a[0] == 't' and a[1].is_concrete() and a[1].concrete().strip() != ''), default=-1)
+                    for j, a in enumerate(at):
+                        if a[0] == 't' and a[1].is_concrete():
+                            for ch in a[1].concrete():
+                                if ch in '([{':
+                                    depth += 1
+                                elif ch in ')]}':
+                                    depth -= 1
+                        elif a == ('nl',) and depth == 0 and j < last_tok:
+                            bad = True
+                    ctx.must_hold(not bad, 'C04:line-break-outside-delimiters-in-embedded-code', info)
+                    ctx.witness('embedded statement')
                 if 'C01' in want and markers:
                     # a list / enum / term marker is followed by a blank (or the end): `/: d` is text, not a term item
                     ok = True
@@ -375,6 +415,9 @@ def confirm(S, info):
             return dict(api='Typstyle::format_content', source=src, width=w, tab=t, output=out, what='well-formed %s is formatted to text with syntax errors: %s' % (show(src), show(out)))
         if strip_layout(out) != strip_layout(src):
             return dict(api='Typstyle::format_content', source=src, width=w, tab=t, output=out, what='tokens changed: %s -> %s' % (show(src), show(out)))
+        if 'semicolon-that-ends' in info.get('label', '') and shape_of_src(S, src) != shape_of_src(S, out):
+            return dict(api='Typstyle::format_content', source=src, width=w, tab=t, output=out,
+                        what='%s is formatted to %s: the embedded code now extends over what followed its semicolon (tree %s -> %s)' % (show(src), show(out), shape_of_src(S, src), shape_of_src(S, out)))
         if 'item-marker' in info.get('label', '') and shape_of_src(S, src) != shape_of_src(S, out):
             return dict(api='Typstyle::format_content', source=src, width=w, tab=t, output=out,
                         what='%s is formatted to %s, which is no longer the same list / term item (tree %s -> %s)' % (show(src), show(out), shape_of_src(S, src), shape_of_src(S, out)))
